@@ -23,7 +23,9 @@ RULE = ("(api) API-built sets: 1-2 languages with codes from a pool including qu
         "lxml.etree without recovery. Non-trivial: an attribute-position string contains one of "
         "& < > \" ', or >= 2 regions, or >= 2 languages, or STYLE nodes present. "
         'In a third of the API cases the writer object has written another generated set '
-        "(often with a 'p' style) before. ")
+        "(often with a 'p' style) before. "
+        "API caption times advance by 0, 1 us, 400 us, 999 us, 1 s or 2.5 s, so that distinct "
+        "timespans may agree to the millisecond (they are not concurrent). ")
 ASSUMPTIONS = [
     "style ids and class names contain no whitespace (style= is a list of ids)",
     "RelativizationError and the documented ValueError of fit-to-screen on absolute units are "
@@ -85,7 +87,7 @@ def api_strategy(tier):
             cues = []
             t = 0
             for _ in range(draw(st.integers(1, 4))):
-                t += draw(st.sampled_from([0, 0, 1000000, 2500000]))
+                t += draw(st.sampled_from([0, 0, 1000000, 2500000, 1, 400, 999]))    # also sub-millisecond steps
                 nodes = []
                 stack = []
                 for k in range(draw(st.integers(1, 5))):
